@@ -234,3 +234,74 @@ with recase_map (m m' : dmap) (i : finfo) {struct m} : bool :=
      end) && recase_map r r' i
   | _, _ => false
   end.
+
+(* ------------------------------------------------------------------ mapping vs encoding/json: the compared fragment *)
+
+(* plain json name tags only: no option on any field, no embedded struct *)
+Fixpoint plain_type (t : ftype) : bool :=
+  match t with
+  | TPrim _ => true
+  | TPtr t' | TSlice t' | TMap t' => plain_type t'
+  | TStruct fs => plain_fields fs
+  end
+with plain_fields (fs : fields) : bool :=
+  match fs with
+  | FNil => true
+  | FCons _ o t rest => match o with None => true | Some _ => false end && plain_type t && plain_fields rest
+  | FEmbed _ _ _ _ => false
+  end.
+
+(* a field of this type may be absent without the two decoders disagreeing: mapping turns an
+   absent map into an empty map (encoding/json: nil; known finding F8d) and allocates an absent
+   pointer whose target needs nothing *)
+Fixpoint absent_neutral (t : ftype) : bool :=
+  match t with
+  | TPrim _ | TSlice _ => true
+  | TMap _ | TPtr _ => false
+  | TStruct fs => absent_neutral_fields fs
+  end
+with absent_neutral_fields (fs : fields) : bool :=
+  match fs with
+  | FNil => true
+  | FCons _ _ t r => absent_neutral t && absent_neutral_fields r
+  | FEmbed _ _ inner r => absent_neutral_fields inner && absent_neutral_fields r
+  end.
+
+(* no key of the object is a case variant of a field name (known finding F8b) *)
+Definition no_variant (keys : list string) (o : list (string * jv)) : bool :=
+  forallb (fun kv => forallb (fun fk => negb (String.eqb (lower (fst kv)) (lower fk)) || String.eqb (fst kv) fk) keys) o.
+
+(* objects have distinct keys (a decoded JSON object), no case-variant keys, absent fields only
+   where that is neutral, and no non-empty array consists of nulls only (mapping leaves the
+   slice nil, encoding/json makes zero elements: known finding F8e) *)
+Fixpoint std_ok_val (t : ftype) (v : jv) {struct t} : bool :=
+  match t with
+  | TPrim _ => true
+  | TPtr t' => std_ok_val t' v
+  | TStruct fs =>
+    match v with
+    | JObj o => nodupb (map fst o) && no_variant (field_keys fs) o && std_ok_fields fs o
+    | _ => true
+    end
+  | TSlice e =>
+    match v with
+    | JArr l => match l with [] => true | _ => negb (forallb is_null l) end
+                && forallb (fun x => is_null x || std_ok_val e x) l
+    | _ => true
+    end
+  | TMap e => match v with JObj o => forallb (fun kv => std_ok_val e (snd kv)) o | _ => true end
+  end
+with std_ok_fields (fs : fields) (o : list (string * jv)) {struct fs} : bool :=
+  match fs with
+  | FNil => true
+  | FCons key _ t rest =>
+    match lookup key o with None => absent_neutral t | Some v => is_null v || std_ok_val t v end
+    && std_ok_fields rest o
+  | FEmbed _ _ _ _ => false
+  end.
+
+Definition std_ok (fs : fields) (d : option jv) : bool :=
+  match d with
+  | Some (JObj o) => nodupb (map fst o) && no_variant (field_keys fs) o && std_ok_fields fs o
+  | _ => true
+  end.
